@@ -84,6 +84,7 @@ type Contract struct {
 	MayPanic   bool
 	NoSafety   bool
 	Uninterp   bool // spec function treated as an uninterpreted function of its arguments
+	ReliableIO  bool // file operations do not fail for environmental reasons in this function (assumption)
 	AbstractMul bool // multiplication of two non-literals is an uninterpreted function in this function's obligations (sound: weaker)
 	NoOverflow bool // math mode: arithmetic of this function is assumed not to overflow (recorded as an assumption)
 	Lemma      bool
@@ -352,6 +353,8 @@ func (p *Program) bind(c *Contract) error {
 			c.NoOverflow = true
 		case "abstract_mul":
 			c.AbstractMul = true
+		case "reliable_io":
+			c.ReliableIO = true
 		case "uninterpreted":
 			c.Uninterp = true
 			c.Assumed = "uninterpreted ghost function: " + rc.text
